@@ -196,6 +196,43 @@ func verifTopComma(e string) bool {
 	return false
 }
 
+// verifStmtKeyParts returns the top-level comma separated key parts of
+// CREATE [UNIQUE] INDEX `i` ON `t` (<parts>) [WHERE ...].
+func verifStmtKeyParts(stmt string) ([]string, bool) {
+	const on = " ON `t` ("
+	k := strings.Index(stmt, on)
+	if k < 0 {
+		return nil, false
+	}
+	rest := stmt[k+len(on):]
+	depth := 1
+	var quote byte
+	start := 0
+	var out []string
+	for i := 0; i < len(rest); i++ {
+		c := rest[i]
+		switch {
+		case quote != 0:
+			if c == quote {
+				quote = 0
+			}
+		case c == '\'' || c == '"' || c == '`':
+			quote = c
+		case c == '(':
+			depth++
+		case c == ')':
+			depth--
+			if depth == 0 {
+				return append(out, strings.TrimSpace(rest[start:i])), true
+			}
+		case c == ',' && depth == 1:
+			out = append(out, strings.TrimSpace(rest[start:i]))
+			start = i + 1
+		}
+	}
+	return nil, false
+}
+
 func verifC03Idx(nparts, exprLen int) {
 	sch := schema.New("main")
 	t := schema.NewTable("t").SetSchema(sch)
@@ -241,12 +278,20 @@ func verifC03Idx(nparts, exprLen int) {
 	stmt := plan.Changes[0].Cmd
 	verifObserve("stmt", stmt)
 	// ---- what SQLite reports for it ----
+	// SQLite derives the key parts from the statement it stored, not from what the
+	// planner meant: the direction of each part is read off the emitted text.
+	stmtParts, ok := verifStmtKeyParts(stmt)
+	verifAssert(ok && len(stmtParts) == len(parts), "the emitted statement has one key part per index part")
+	if !ok || len(stmtParts) != len(parts) {
+		return
+	}
 	q := &verifIdxQuerier{list: [][]any{{"i", idx.Unique, "c", pred != "", stmt}}}
-	for _, p := range parts {
+	for k, p := range parts {
+		desc := strings.HasSuffix(stmtParts[k], " DESC")
 		if p.col != "" {
-			q.xinfo = append(q.xinfo, []any{p.col, p.desc})
+			q.xinfo = append(q.xinfo, []any{p.col, desc})
 		} else {
-			q.xinfo = append(q.xinfo, []any{nil, p.desc})
+			q.xinfo = append(q.xinfo, []any{nil, desc})
 		}
 	}
 	t2 := schema.NewTable("t").SetSchema(sch)
